@@ -7,6 +7,7 @@ package trzsz
 
 import (
 	"bytes"
+	"sync"
 	"time"
 )
 
@@ -60,4 +61,89 @@ func VerifSetTimeNow(f func() time.Time) func() {
 	old := timeNowFunc
 	timeNowFunc = f
 	return func() { timeNowFunc = old }
+}
+
+// ---- the session around the bar (filter.go): options.TerminalColumns, createProgressBar,
+// SetTerminalColumns with and without a live bar, resetProgressBar, the stop prompt ----
+
+type verifSessionOut struct {
+	mu  sync.Mutex
+	buf bytes.Buffer
+}
+
+func (o *verifSessionOut) Write(p []byte) (int, error) {
+	o.mu.Lock()
+	defer o.mu.Unlock()
+	return o.buf.Write(p)
+}
+
+func (o *verifSessionOut) Close() error { return nil }
+
+// VerifSession is a bare TrzszFilter (no goroutines, no server) whose terminal is a buffer.
+type VerifSession struct {
+	f   *TrzszFilter
+	out *verifSessionOut
+}
+
+func VerifNewSession(columns int32) *VerifSession {
+	out := &verifSessionOut{}
+	return &VerifSession{out: out, f: &TrzszFilter{clientOut: out,
+		options: TrzszOptions{TerminalColumns: columns}, trigger: &trzszTrigger{}}}
+}
+
+// SetTerminalColumns is the public resize callback.
+func (s *VerifSession) SetTerminalColumns(columns int32) { s.f.SetTerminalColumns(columns) }
+
+// Start / End are what downloadFiles and uploadFiles do around a transfer.
+func (s *VerifSession) Start(quiet bool, tmuxPaneColumns int32) {
+	s.f.createProgressBar(quiet, tmuxPaneColumns)
+}
+func (s *VerifSession) End() { s.f.resetProgressBar() }
+
+// Bar is what the transfer is handed as its progress callback: filter.progress.Load(), nil
+// included (the callbacks are nil-safe; State must not be called then).
+func (s *VerifSession) Bar() *VerifProgress { return &VerifProgress{p: s.f.progress.Load()} }
+func (s *VerifSession) HasBar() bool        { return s.f.progress.Load() != nil }
+
+// SessionColumns is the width the session remembers (options.TerminalColumns).
+func (s *VerifSession) SessionColumns() int32 { return s.f.options.TerminalColumns }
+
+func (s *VerifSession) TakeOutput() string {
+	s.out.mu.Lock()
+	defer s.out.mu.Unlock()
+	str := s.out.buf.String()
+	s.out.buf.Reset()
+	return str
+}
+
+// PromptOpen runs the real confirmStopTransfer (on a throw-away transfer) and returns once the
+// prompt goroutine has paused the bar; false = it did not open.
+func (s *VerifSession) PromptOpen() bool {
+	s.f.confirmStopTransfer(newTransfer(&verifSessionOut{}, nil, false, nil))
+	if s.f.promptPipe.Load() == nil {
+		return false
+	}
+	if p := s.f.progress.Load(); p != nil {
+		for i := 0; i < 5000 && !p.pausing.Load(); i++ {
+			time.Sleep(200 * time.Microsecond)
+		}
+		return p.pausing.Load()
+	}
+	return true
+}
+
+// PromptContinue answers the open prompt with "Continue to transfer remaining files" (typed as
+// the user would: j j Enter) and waits until the prompt goroutine has finished.
+func (s *VerifSession) PromptContinue() bool {
+	for _, key := range []byte{'j', 'j', '\r'} {
+		pipe := s.f.promptPipe.Load()
+		if pipe == nil {
+			return false
+		}
+		s.f.transformPromptInput(pipe, []byte{key})
+	}
+	for i := 0; i < 25000 && s.f.promptPipe.Load() != nil; i++ {
+		time.Sleep(200 * time.Microsecond)
+	}
+	return s.f.promptPipe.Load() == nil
 }
